@@ -296,7 +296,7 @@ func (g *hostileGen) honest() (claim, bool) {
 var mutationNames = []string{"swap-targets", "swap-hashes", "target->sibling", "target->parent", "target->cousin", "target->other-tree", "dup-target",
 	"flip-proof-hash", "drop-proof-hash", "insert-proof-hash", "dup-proof-hash", "permute-proof", "hash->fresh", "hash->root", "hash->other-node",
 	"hash->zero", "drop-hash", "target->beyond", "add-nested-target", "target->child", "append-junk-proof", "hash->sibling-hash",
-	"hash-tail-flip", "proof-tail-flip", "hash-head-flip", "drop-all-hashes"}
+	"hash-tail-flip", "proof-tail-flip", "hash-head-flip", "drop-all-hashes", "target+=position-space"}
 
 // mutate applies one structured mutation; ok=false if it does not apply.
 func (g *hostileGen) mutate(c claim) (claim, bool) {
@@ -405,6 +405,14 @@ func (g *hostileGen) mutate(c claim) (claim, bool) {
 			return c, false
 		}
 		c.Targets[pick()] = g.target(nil)
+	case "target+=position-space":
+		// an alias of a true position: the same bits below the size of the position space (2^(h+1)),
+		// something else above - arithmetic that masks or shifts without looking at the high bits takes
+		// it for the true position (round 10, seeded change C03j).  Otherwise the claim stays honest.
+		if nt == 0 {
+			return c, false
+		}
+		c.Targets[pick()] += uint64(1+r.Intn(3)) << (uint(g.h) + 1 + uint(r.Intn(3)))
 	case "hash-tail-flip", "hash-head-flip":
 		// a claimed hash that agrees with the true one in its first 12 bytes (the pointer
 		// forest's map key) / only in its last 20
